@@ -1,4 +1,5 @@
 import NibabelModel.Model.C20
+import NibabelModel.Generated.C20Funcs
 import Driver.Util
 /-! Line-protocol driver for C20: `C20 <op> <args...>` -> one observable line.
 
@@ -9,6 +10,11 @@ import Driver.Util
        output  = `ok r=<res>|<res>|…`, <res> = `[slab ids]` or `ERR:<class>`
   `C20 spec <cfg> <records>`   spec predicate `complete` (records of complete label sets in key order) + H0∧H1
   `C20 volnos <slices>`    `vol_numbers`
+  `C20 gen vol_numbers <slices>`   the function TRANSLATED from the working tree (Generated/C20Funcs.lean)
+
+  `load`, `loadorig` and `read` run the call-site model `loadSites` (index list recomputed by the proxy, by
+  get_data_scaling on both header objects and by get_volume_labels; header copy); `pslope`/`pinter` are
+  the proxy's own scaling arrays.
   `C20 isfull <smax> <slices>`   `vol_is_full`
 
   cfg     = `ver,diffusion,maxSlices,maxEchoes,maxDynamics,maxDiffValues,maxGradOrient` (ver ∈ 40,41,42)
@@ -75,24 +81,26 @@ def runRead (st pe sc cfg recs xy sls : String) : String :=
         parseNatList? xy, (sls.splitOn "|").mapM parseSlicer? with
   | some st, some pe, some sc, some cfg, some recs, some [x, y], some sls =>
       if sc = .fp && recs.any (fun r => r.rs == 0 || r.ss == 0) then "bad-op"
-      else match load cfg pe st sc false recs with
-        | .ok o => "ok r=" ++ "|".intercalate (sls.map fun sl =>
-            match readPartial o (x, y) sl with
+      else match loadSites cfg pe st sc false recs with
+        | .ok so => "ok r=" ++ "|".intercalate (sls.map fun sl =>
+            match readPartial so.out (x, y) sl with
             | .ok l => showList l
             | .error e => showErr e)
         | .error e => showErr e
   | _, _, _, _, _, _, _ => "bad-op"
 
-def showOut (o : Out) : String :=
+def showOut (so : SitesOut) : String :=
+  let o := so.out
   "ok shape=" ++ showList o.shape ++ " idx=" ++ showList o.idx ++ " data=" ++ showList o.data ++
-  " slope=" ++ showRats o.slopes ++ " inter=" ++ showRats o.inters ++ " labels=" ++ showLabels o.labels
+  " slope=" ++ showRats o.slopes ++ " inter=" ++ showRats o.inters ++
+  " pslope=" ++ showRats so.pslopes ++ " pinter=" ++ showRats so.pinters ++ " labels=" ++ showLabels o.labels
 
 def runLoad (orig : Bool) (st pe sc cfg recs : String) : String :=
   match parseBool? st, parseBool? pe, parseScaling? sc, parseCfg? cfg, parseRecs? recs with
   | some st, some pe, some sc, some cfg, some recs =>
       -- fp scaling divides by the scale factors: zero factors are outside the modelled domain
       if sc = .fp && recs.any (fun r => r.rs == 0 || r.ss == 0) then "bad-op"
-      else match load cfg pe st sc orig recs with
+      else match loadSites cfg pe st sc orig recs with
         | .ok o => showOut o
         | .error e => showErr e
   | _, _, _, _, _ => "bad-op"
@@ -110,6 +118,19 @@ def handle : List String → String
   | ["volnos", sl] =>
       match parseIntList? sl with
       | some sl => showList (volNumbers sl)
+      | none => "bad-op"
+  | ["gen", "vol_numbers", sl] =>
+      match parseIntList? sl with
+      | some sl =>
+          match Nb.Gen.C20F.vol_numbers (Nb.Py.V.ofList (sl.map Nb.Py.V.int)) with
+          | .ok v =>
+              match v.toList? with
+              | some vs =>
+                  match vs.mapM (fun x => match x with | Nb.Py.V.int i => some i | _ => none) with
+                  | some is => showList is
+                  | none => "ERR:not-ints"
+              | none => "ERR:not-a-list"
+          | .error e => "ERR:" ++ reprStr e
       | none => "bad-op"
   | ["isfull", smax, sl] =>
       match smax.toInt?, parseIntList? sl with
